@@ -99,3 +99,85 @@ Proof.
       destruct (z0 <=? rows); cbn; [|split; discriminate].
       destruct (z1 <=? cols); cbn; split; discriminate.
 Qed.
+
+(* ---- fit ranges that exceed the size they are checked against are refused: whatever the result
+   range, an accepted (well-formed) target range lies inside rows x cols (x times) *)
+Definition range_inside (t : fitrange) (rows cols : Z) (times : option Z) : bool :=
+  match t with
+  | FR2 tr tc => sl_inside rows tr && sl_inside cols tc
+  | FR3 tm tr tc => match times with
+                    | Some n => sl_inside n tm && sl_inside rows tr && sl_inside cols tc
+                    | None => false
+                    end
+  end.
+
+Lemma run_guards_not_accept : forall e gs, run_guards e gs <> Some Accept.
+Proof.
+  intros e gs. induction gs as [|g r IH]; cbn; [discriminate|].
+  destruct (run_guard e g) as [x|] eqn:E; [|exact IH].
+  intro K. inversion K; subst x. clear K.
+  destruct g as [p neg a c b | b]; cbn in E.
+  - destruct (pre_holds e p); [|discriminate].
+    destruct (cmp_eval c (eval e a) (eval e b)) as [v|]; [|discriminate].
+    destruct (xorb neg v); discriminate.
+  - destruct b; try discriminate. destruct (e_times e); discriminate.
+Qed.
+
+Lemma coded_accept_inside : forall t o rows cols times,
+  wf_range t = true ->
+  check coded_checker (Some t) o rows cols times = Accept -> range_inside t rows cols times = true.
+Proof.
+  intros t o rows cols times Hw H.
+  assert (G : match run_guards {| e_tgt := t; e_out := o; e_rows := rows; e_cols := cols; e_times := times |}
+                               (if is3d t then check3d coded_checker else check2d coded_checker) with
+              | Some _ => False | None => True end).
+  { unfold check in H.
+    destruct (match o with Some _ => run_guards _ (out_guards coded_checker) | None => None end) as [r0|] eqn:E0.
+    - subst r0. destruct o; [|discriminate]. exfalso. exact (run_guards_not_accept _ _ E0).
+    - destruct (run_guards _ (if is3d t then check3d coded_checker else check2d coded_checker)) as [r|] eqn:E1;
+        [|exact I].
+      subst r. exact (run_guards_not_accept _ _ E1). }
+  clear H.
+  destruct t as [[ts1 te1] [ts2 te2] | [ts0 te0] [ts1 te1] [ts2 te2]]; cbn in G, Hw |- *.
+  - destruct te1 as [e1|]; cbn in G; [|contradiction].
+    destruct (e1 <=? rows) eqn:E1; cbn in G; [|contradiction].
+    destruct te2 as [e2|]; cbn in G; [|contradiction].
+    destruct (e2 <=? cols) eqn:E2; cbn in G; [|contradiction].
+    unfold sl_inside, resolve, dflt; cbn.
+    destruct ts1, ts2; cbn in *; lia.
+  - destruct te1 as [e1|]; cbn in G; [|contradiction].
+    destruct (e1 <=? rows) eqn:E1; cbn in G; [|contradiction].
+    destruct te2 as [e2|]; cbn in G; [|contradiction].
+    destruct (e2 <=? cols) eqn:E2; cbn in G; [|contradiction].
+    destruct times as [n|]; cbn in G; [|contradiction].
+    destruct te0 as [e0|]; cbn in G; [|contradiction].
+    destruct (e0 <=? n) eqn:E0; cbn in G; [|contradiction].
+    unfold sl_inside, resolve, dflt; cbn.
+    destruct ts0, ts1, ts2; cbn in *; lia.
+Qed.
+
+(* the constructor: when the call sites pass the sizes of the TARGET (coded_calls), an accepted
+   target range lies inside the target data *)
+Lemma coded_ctor_inside : forall c sims,
+  wf_range (fc_trng c) = true ->
+  ctor_check coded_checker coded_calls c sims = Accept -> target_inside c = true.
+Proof.
+  intros c sims Hw H. unfold ctor_check in H.
+  apply coded_accept_inside in H; [|exact Hw].
+  unfold target_inside. destruct (fc_multi c); cbn in H; destruct (fc_trng c); cbn in H |- *; try exact H.
+  discriminate.
+Qed.
+
+(* ... hence a problem object that could be constructed at all (the harness' bypass switch off) has a
+   target range inside the target data: "fit ranges that exceed the target's size are rejected
+   before optimisation starts" *)
+Lemma coded_model_fit_inside : forall c sims,
+  fc_bypass c = false -> wf_range (fc_trng c) = true ->
+  model_fit coded_checker coded_calls c sims <> OCtor -> target_inside c = true.
+Proof.
+  intros c sims Hb Hw H. unfold model_fit in H. rewrite Hb in H.
+  destruct (ctor_check coded_checker coded_calls c sims) eqn:E.
+  - apply (coded_ctor_inside c sims Hw E).
+  - destruct (fc_trng c); exfalso; apply H; reflexivity.
+  - destruct (fc_trng c); exfalso; apply H; reflexivity.
+Qed.
